@@ -6,11 +6,27 @@ import label as LB
 
 
 def result_defs(b):
+    """(site, expression, facts) for every value the function can return, traced back through copies to where it was
+    produced (an aggregate statement or a call), with the path facts that hold there"""
     out = []
-    for d in b.defs().get(0, []):
-        site = (d[0], d[1])
-        e = b.expr_rvalue(d[3], site) if d[2] == "assign" else b.expr_call(d[3], site)
-        out.append((site, e, b.facts_at(site)))
+    seen = set()
+    for r in b.returns:
+        for dsite, kind in b.origins(0, (r, b.term_idx(r))):
+            if dsite is None or dsite in seen:
+                continue
+            seen.add(dsite)
+            blk = b.blocks[dsite[0]]
+            if kind == "call":
+                e = b.expr_call(blk["term"], dsite)
+            else:
+                e = b.expr_rvalue(blk["stmts"][dsite[1]]["rv"], dsite)
+            facts = b.facts_at(dsite)
+            core = strip_load(e)
+            if core[0] == "phi":
+                for a in core[1]:
+                    out.append((dsite, strip_load(a), facts))
+            else:
+                out.append((dsite, core, facts))
     return out
 
 
@@ -201,23 +217,27 @@ def rw45(F, R):
     data = c.mut["data"]
     seen = {}
     for s, e, facts in result_defs(data):
-        arm = None
+        arms = frozenset(["Stored", "Taken", "Empty"])      # read states this result can be returned in
         for f in facts:
-            if f[0] == "in" and is_pers_discr_of(f[1]) and len(f[2]) == 1:
-                arm = next(iter(f[2]))
+            if f[0] == "in" and is_pers_discr_of(f[1]):
+                arms = arms & f[2]
+            if f[0] == "notin" and is_pers_discr_of(f[1]):
+                arms = arms - f[2]
+        arm = "+".join(sorted(arms)) if len(arms) < 3 else None
         if e[0] == "agg" and e[2] == "Some":
             pay = strip_load(dict(e[3])["0"])
             okp = pay[0] == "call" and pay[1].split("::")[-1] == "clone" and strip_load(pay[2][0])[0] == "field" and \
                 strip_load(pay[2][0])[2] == "Vertex::data" and is_param_vertex(strip_load(pay[2][0])[1], 2)
             # the clone is taken before any write to that data in this call
-            if okp and arm in ("Stored", "Taken"):
-                seen[arm] = True
+            if okp and arms <= frozenset(["Stored", "Taken"]) and arms:
+                for a in arms:
+                    seen[a] = True
                 R.ok("RW5", data.where(s), "data(v) in the %s arm returns a copy of data(v)" % arm)
             else:
                 R.bad("RW5", "RW5/Sodg::data/returned-bytes/%s" % arm, data.where(s),
                       "data(v) returns something other than a copy of the datum stored in v (arm %s)" % arm, {"value": show(e, data)})
         elif e[0] == "agg" and e[2] == "None":
-            if arm == "Empty":
+            if arms == frozenset(["Empty"]):
                 seen["Empty"] = True
                 R.ok("RW5", data.where(s), "data(v) = None exactly in the Empty arm")
             else:
